@@ -12,6 +12,9 @@ def plan(tier, seed):
         for norm in norms:
             jobs.append({"id": f"C14:am {e} n={n} norm={norm}", "module": "vf.am", "func": "am_job",
                          "params": dict(env_name=e, n=n, norm=norm, compositions=["XY", "YX"] if tier == "quick" else ["XY", "YX", "XXY", "YXX"])})
+    # MTVRP batches that mix variants (what the 'all' preset produces): X with time windows next to Y without, and the other way round
+    for v in ("mix:TW/", "mix:/TW") + (("mix:OBLTW/L", "mix:B/OTW") if tier == "thorough" else ()):
+        jobs.append({"id": f"C14:am mtvrp[{v}] n=3 norm=batch", "module": "vf.am", "func": "am_job", "params": dict(env_name="mtvrp", n=3, norm="batch", variant=v, compositions=["XY", "YX"])})
     # multi-start decoding: the decoder regroups its cache / the state between [B*S] and [B, S] (shared embeddings) or
     # replicates the cache (dynamic embeddings: SDVRP); row = start * B + instance
     # (mTSP is left out: MTSPContext._distance_from_depot gathers along the start dimension of the regrouped state and raises for
